@@ -5,7 +5,7 @@ CONSTANTS
   Sizes = {0, 3}
   Tamper = FALSE
   LenVals = {}
-  CutOffsets = {2}
+  CutOffsets = {1, 2, 3}
   CutWindow = 2
 VIEW view
 INVARIANTS TypeOK ReadBackIdentically ResponseWhereBodyExpected NoAdversaryNoStop GrammarRoundTrip
